@@ -17,23 +17,49 @@
 
 static KSI_CTX g_ctx;
 
-/* an optional KSI_Integer with an arbitrary 64-bit value, built by the REAL constructor
- * (pool object below 256, heap object otherwise) */
+/* an optional KSI_Integer with an arbitrary 64-bit value.  Values below 256 come from a static pool in the
+ * library (KSI_Integer_new); no code under contract looks at the ADDRESS of an integer other than for
+ * identity, and KSI_Integer_free decides "pooled" by the value, so a heap object with a small value is an
+ * exact stand-in (a symbolic index into the 256-entry pool costs minutes of pointer analysis). */
 static KSI_Integer *mk_int(void) {
 	KSI_Integer *p = NULL;
 	if (nondet_bool()) return NULL;
-	if (KSI_Integer_new(&g_ctx, nondet_ull(), &p) != KSI_OK) return NULL;
+	p = malloc(sizeof(*p));
+	if (p == NULL) return NULL;    /* (cbmc 6 lets malloc fail by default) */
+	p->value = nondet_ull();
+	p->ref = p->value < 256 ? 0 : 1;
 	return p;
+}
+/* release one reference with the REAL KSI_Integer_free; a pool stand-in (value < 256, left alone by the library
+ * like a pool slot) is disposed of by the harness itself */
+static void release_int(KSI_Integer *p) {
+	if (p == NULL) return;
+	if (p->value < 256) { KSI_Integer_free(p); free(p); }
+	else KSI_Integer_free(p);
+}
+static void release_conf(KSI_Config *c) {
+	if (c == NULL) return;
+	release_int(c->maxLevel); release_int(c->aggrAlgo); release_int(c->aggrPeriod); release_int(c->maxRequests);
+	release_int(c->calendarFirstTime); release_int(c->calendarLastTime);
+	KSI_free(c);
 }
 static KSI_Config *mk_conf(void) {
 	KSI_Config *c = NULL;
 	KSI_Config_new(&g_ctx, &c);
+	if (c == NULL) return NULL;
+#ifdef CONS_FIELD
+	c->CONS_FIELD = mk_int();       /* the other fields stay absent (NULL): the function under contract only looks at this one */
+#ifdef CONS_FIELD2
+	c->CONS_FIELD2 = mk_int();
+#endif
+#else
 	c->maxLevel = mk_int();
 	c->aggrAlgo = mk_int();
 	c->aggrPeriod = mk_int();
 	c->maxRequests = mk_int();
 	c->calendarFirstTime = mk_int();
 	c->calendarLastTime = mk_int();
+#endif
 	return c;
 }
 
@@ -62,12 +88,25 @@ void harness(void) {
 void harness(void) {
 	KSI_Config *ha = mk_conf(), *resp = mk_conf();
 	bool updated = nondet_bool();
-	unsigned long long h0 = HA_VAL(ha->CONS_FIELD), r0 = HA_VAL(resp->CONS_FIELD);
-	int res = CONS_FN(ha, resp, &updated);
+	unsigned long long h0, r0;
+	KSI_Integer *hp0;
+	int res;
+	if (ha == NULL || resp == NULL) { release_conf(ha); release_conf(resp); return; }
+	h0 = HA_VAL(ha->CONS_FIELD); r0 = HA_VAL(resp->CONS_FIELD); hp0 = ha->CONS_FIELD;
+	res = CONS_FN(ha, resp, &updated);
 	REACH("returns");
 	if (HA_VAL(ha->CONS_FIELD) != h0) REACH("field replaced");
+#ifdef CONS_HEAP
 	if (HA_VAL(ha->CONS_FIELD) != h0 && h0 >= 256) REACH("heap integer replaced");
+#endif
 	if (HA_VAL(ha->CONS_FIELD) == h0 && r0 != 0 && r0 != h0) REACH("pushed value not taken");
+	/* ownership: releasing what the two configurations own afterwards (the statements of KSI_Config_free, real
+	 * KSI_Integer_free) frees every integer exactly once: double free = failed free() precondition,
+	 * leak = --memory-leak-check; harness integers carry one reference */
+	if (hp0 != NULL && h0 < 256 && ha->CONS_FIELD != hp0) free(hp0);   /* replaced pool stand-in: a pool slot in the library */
+	release_conf(ha);
+	release_conf(resp);
+	REACH("both configurations released");
 }
 #endif
 
@@ -77,6 +116,7 @@ void harness(void) {
 	KSI_Config *resp = mk_conf();
 	bool updated = nondet_bool();
 	int res;
+	if (resp == NULL) return;
 	memset(&has, 0, sizeof(has));
 	has.ctx = &g_ctx;
 	has.consolidatedConfig = nondet_bool() ? NULL : mk_conf();
